@@ -190,6 +190,26 @@ class Run:
               f"solver_time={tsum:.1f}s wall={time.time()-self.t0:.1f}s")
         return 1 if nviol else 0
 
+    def oracle_sanity(self):
+        import re
+        seen, bad = {}, 0
+        for o in self.obls:
+            if o.replay is None:
+                continue
+            key = (re.sub(r"/path\d+", "", o.name), json.dumps(o.instance, sort_keys=True, default=str))
+            if key in seen:
+                continue
+            found, err = run_forked(lambda: o.replay({}, self.seed), timeout=300)
+            seen[key] = found
+            known = any(k.get("status") == "open" and o.name.startswith(k["obligation"]) for k in self.known)
+            if err:
+                print(f"ORACLE-ERROR {o.name}: {str(err)[:200]}")
+            if found is not None and not known:
+                bad += 1
+                print(f"ORACLE-FAILS-ON-THIS-TREE {o.name} -> {str(found)[:260]}")
+        print(f"[{self.pid}] oracle sanity: {len(seen)} distinct oracle calls, {bad} report a failing input without a known finding")
+        return 1 if bad else 0
+
     def _violation(self, o, replay_fn, lines):
         os.makedirs(os.path.join(OUT, "replays"), exist_ok=True)
         h = hashlib.sha256((o.name + json.dumps(o.instance, sort_keys=True, default=str)).encode()).hexdigest()[:10]
@@ -328,6 +348,9 @@ def main(argv=None):
     ap.add_argument("pid")
     ap.add_argument("--tier", default=os.environ.get("VERIF_TIER", "quick"))
     ap.add_argument("--replay", default=None)
+    ap.add_argument("--oracle-sanity", action="store_true",
+                    help="developer mode: run the native replay oracle of every obligation on the current tree; an oracle that reports a failing "
+                         "input for an obligation that is NOT refuted (and not a known finding) is too strict and would mis-attribute failures")
     a = ap.parse_args(argv)
     seed = int(os.environ.get("VERIF_SEED", "0"))
     sys.path.insert(0, VERIF)
@@ -337,6 +360,8 @@ def main(argv=None):
     run = Run(a.pid, a.tier, seed)
     try:
         mod.build(run)
+        if a.oracle_sanity:
+            return run.oracle_sanity()
         return run.finish(getattr(mod, "replay", None))
     except Exception:
         traceback.print_exc()
